@@ -447,4 +447,11 @@ def r11_fitness_and_resimulation_agree(ctx):
         ctx.check(ok, fit.qual + f"#siblings:{k}", f"{k}={ta} in the evaluation and in the re-simulation" if ok else f"the fitness evaluation runs with {k}={ta} but the re-simulation of the champions with {k}={tb}: the reported fitness / simulated data are not those of the reported parameters", where=fit, node=rf[0])
 
 
-RULES = [r10_reported_champions, r11_fitness_and_resimulation_agree, r9_resimulated_data_layout, r8_builtin_formulas, r1_extent_check, r2_upper_bound, r3_same_range_both_sides, r4_accumulation_and_pairing, r5_weights_reach_function, r6_builtins_use_inputs, r7_checks_precede_optimiser]
+def r12_each_target_has_its_own_processor(ctx):
+    """"Each paired with its own input arguments": build_processors gives every (target, input arguments) pair its own deep copy of the whole processor - a shared detector would receive the LAST pair's `detector.*` input arguments for all targets (shared with C06.R1)."""
+    from props.C06 import r1_fresh_copy_per_run
+
+    r1_fresh_copy_per_run(ctx)
+
+
+RULES = [r12_each_target_has_its_own_processor, r10_reported_champions, r11_fitness_and_resimulation_agree, r9_resimulated_data_layout, r8_builtin_formulas, r1_extent_check, r2_upper_bound, r3_same_range_both_sides, r4_accumulation_and_pairing, r5_weights_reach_function, r6_builtins_use_inputs, r7_checks_precede_optimiser]
